@@ -553,6 +553,81 @@ def part_programs(chk, c2m, d, quick):
     return len(texts) - invalid, findings
 
 
+# ------------------------------------------------------------------ C: the repository's own C programs (thorough tier)
+CTEST_DIRS = ('lacc', 'andrewchambers_c', 'new')
+CTEST_ENGINES = [('-ei',), ('-O2', '-eg')]
+
+
+def ctest_skips():
+    sk = {}
+    for l in open(os.path.join(vlib.VERIF, 'corpus', 'c07_ctests_skip.txt')):
+        if l.strip() and not l.startswith('#'):
+            w = l.rstrip('\n').split('\t')
+            sk[w[0]] = (w[1], w[2] if len(w) > 2 else '')
+    return sk
+
+
+def ctest_one(c2m, rel, d):
+    """('ok'|'invalid'|'differs', detail)"""
+    src = os.path.join(vlib.REPO, 'c-tests', rel)
+    cwd = os.path.dirname(src)
+    tag = hashlib.sha1(rel.encode()).hexdigest()[:10]
+    outs = []
+    for i, fl in enumerate((['-O0', '-fsanitize=undefined', '-fno-sanitize-recover=all'], ['-O1'], ['-O2'])):
+        exe = os.path.join(d, 'ct-%s.g%d' % (tag, i))
+        # -trigraphs: ISO translation phase 1 (c2m implements it; gcc's gnu11 mode does not by default)
+        rc, out, err = vlib.sh(['gcc', '-w', '-std=gnu11', '-trigraphs'] + fl + [src, '-o', exe, '-lm'], timeout=300, cwd=cwd)
+        if rc != 0:
+            return 'invalid', 'gcc rejects: ' + (err.strip().split('\n') or [''])[0][:200]
+        rc, out, err = vlib.sh([exe], timeout=30, cwd=cwd, input=b'')
+        os.remove(exe)
+        if 'runtime error' in err:
+            return 'invalid', 'UBSan: ' + err.strip().split('\n')[0][:200]
+        outs.append((rc, out))
+    if len(set(outs)) != 1:
+        return 'invalid', 'gcc -O0/-O1/-O2 disagree'
+    bad = []
+    for e in CTEST_ENGINES:
+        rc, out, err = vlib.sh([c2m, '-w', src] + list(e), timeout=60, cwd=cwd, input=b'')
+        if (rc, out) != outs[0]:
+            bad.append((ename(e), rc, out[-300:], err[-200:]))
+    if bad:
+        return 'differs', dict(gcc=[outs[0][0], outs[0][1][-300:]], c2m=bad)
+    return 'ok', ''
+
+
+def part_ctests(chk, c2m, d):
+    import concurrent.futures as cf
+    sk = ctest_skips()
+    files = []
+    for sub in CTEST_DIRS:
+        p = os.path.join(vlib.REPO, 'c-tests', sub)
+        for f in sorted(os.listdir(p)) if os.path.isdir(p) else []:
+            if f.endswith('.c'):
+                files.append(sub + '/' + f)
+    todo = [f for f in files if f not in sk]
+    for f in files:
+        if f in sk:
+            chk.dist('C_ctests', 'skipped: ' + sk[f][0])
+    with cf.ThreadPoolExecutor(4) as ex:
+        res = list(ex.map(lambda f: ctest_one(c2m, f, d), todo))
+    nok = 0
+    for f, (st, detail) in zip(todo, res):
+        if st == 'ok':
+            nok += 1
+            chk.count('C:' + f, nontrivial=True, n=len(CTEST_ENGINES))
+            chk.dist('C_ctests', 'agrees with gcc under -ei and -O2 -eg')
+        elif st == 'invalid':
+            chk.dist('C_ctests', 'no reference behaviour (not in the skip list)')
+            chk.notes.append('c-tests/%s gives no reference behaviour and is not in corpus/c07_ctests_skip.txt: %s' % (f, detail))
+        else:
+            chk.dist('C_ctests', 'DIFFERS from gcc')
+            chk.finding('ctest:' + f, dict(kind='ctest', file=f, detail=detail),
+                        'c-tests/%s: c2m %s differs from gcc (gcc rc=%d, c2m rc=%d)' % (f, ','.join(b[0] for b in detail['c2m']),
+                                                                                       detail['gcc'][0], detail['c2m'][0][1]))
+    return nok
+
+
 # ------------------------------------------------------------------ driver
 def run(chk):
     quick = chk.tier == 'quick'
@@ -577,6 +652,8 @@ def run(chk):
             n4, bad_bf, bf_tie = part_bitfields(chk, c2m, model, d, quick)
         if 'B' in parts:
             n3, bad_progs = part_programs(chk, c2m, d, quick)
+        if 'C' in parts or (not quick and 'C07_PARTS' not in os.environ):
+            part_ctests(chk, c2m, d)
     chk.cov['rule'] = ('A1: _Generic type id of every operator on all 15x15 arithmetic type pairs and of typed integer constants; '
                        'A2: each UB-free typed operator application is evaluated in 3 constant contexts and 2 run-time forms under '
                        '7 c2m engine configurations and gcc (evaluations = cases x 5 x 8); every case is non-trivial; distinct by case; '
@@ -584,7 +661,9 @@ def run(chk):
                        'under the 7 engine configurations vs gcc; '
                        'F: bit-field stores (declared type x width x position in the unit x neighbours x boundary value x fill pattern x '
                        'form): assignment value, read-back and named bits of the whole object under 7 engine configurations and gcc vs '
-                       'the extracted BitField model; emitted MIR access code (c2m -S) vs the model code')
+                       'the extracted BitField model; emitted MIR access code (c2m -S) vs the model code; '
+                       'C (thorough tier only): every .c file of c-tests/{lacc,andrewchambers_c,new} not listed in corpus/c07_ctests_skip.txt: '
+                       'stdout + exit status under -ei and -O2 -eg vs gcc (validated like B)')
     tie_broken = bool(lim) or not r['ok'] or bool(model_breaks) or bool(bf_tie)
     if tie_broken and not chk.violations:
         r = dict(r)
@@ -623,6 +702,10 @@ def replay(chk, path):
             for b in bad:
                 print(b)
             return 1 if bad else 0
+        if j.get('kind') == 'ctest':
+            st, detail = ctest_one(c2m, j['file'], d)
+            print('c-tests/%s: %s %s' % (j['file'], st, detail))
+            return 0 if st == 'ok' else 1
         if j.get('kind') == 'bf':
             import gen_c07_bf as F
             src = os.path.join(d, 'bf.c')
